@@ -23,6 +23,7 @@ pub fn profile_docs() -> Profile {
     p.inline = 15;
     p.flatten = 12;
     p.no_parent_escape = true;
+    p.flatten_tower = 20;
     p
 }
 
